@@ -213,3 +213,193 @@ pub fn minimise(case: &Case, hist: &History, viol: &Violation) -> (Case, History
     }
     (best, best_h, best_v, true)
 }
+
+
+// ---------------------------------------------------------------------------------------------
+// Minimisation of condemning runs (deadlock, livelock, process abort): every candidate is
+// evaluated in a fresh process (`dst runcase <file>`), because such a run cannot be survived.
+
+#[derive(Clone, Debug)]
+pub struct RunSummary {
+    pub violations: Vec<Violation>,
+    pub decisions: Vec<u16>,
+    pub log_hash: String,
+}
+
+pub fn eval_in_subprocess(case: &Case, tmp: &str) -> Option<RunSummary> {
+    std::fs::write(tmp, serde_json::to_string(case).ok()?).ok()?;
+    let exe = std::env::current_exe().ok()?;
+    let out = std::process::Command::new(exe).arg("runcase").arg(tmp).output().ok()?;
+    let text = String::from_utf8_lossy(&out.stdout).to_string();
+    let mut violations: Vec<Violation> = vec![];
+    let mut decisions: Vec<u16> = vec![];
+    let mut log_hash = String::new();
+    let mut saw_verdict = false;
+    for l in text.lines() {
+        if let Some(j) = l.strip_prefix("VERDICT ") {
+            violations = serde_json::from_str(j).unwrap_or_default();
+            saw_verdict = true;
+        } else if let Some(j) = l.strip_prefix("DECISIONS ") {
+            decisions = serde_json::from_str(j).unwrap_or_default();
+        } else if let Some(j) = l.strip_prefix("LOGHASH ") {
+            log_hash = j.trim().to_string();
+        }
+    }
+    if !saw_verdict {
+        // the process died before it could report: abort, stack overflow, signal
+        violations.push(Violation {
+            prop: "C07".into(),
+            clause: "C07.abort".into(),
+            sig: "process-abort".into(),
+            msg: format!("the process running the case died ({:?})", out.status),
+        });
+    }
+    Some(RunSummary {
+        violations,
+        decisions,
+        log_hash,
+    })
+}
+
+/// shrinks a condemning case; returns the smallest case found with the summary of its last run
+pub fn minimise_hard(case: &Case, viol: &Violation, tmp: &str, budget: usize) -> Option<(Case, RunSummary)> {
+    let mut runs = 0usize;
+    let hit = |s: &RunSummary| s.violations.iter().any(|v| v.clause == viol.clause && v.sig == viol.sig);
+    let eval = |c: &Case, runs: &mut usize| -> Option<RunSummary> {
+        *runs += 1;
+        eval_in_subprocess(c, tmp)
+    };
+    let mut best = case.clone();
+    let mut best_s = eval(&best, &mut runs)?;
+    if !hit(&best_s) {
+        return None;
+    }
+    if !best_s.decisions.is_empty() {
+        best.sched.explicit = Some(best_s.decisions.clone());
+    }
+    // programs: chunks, then single operations
+    let mut chunk = (best.ops.len() / 4).max(1);
+    loop {
+        let mut progress = false;
+        let mut i = best.ops.len();
+        while i > 0 && runs < budget {
+            let lo = i.saturating_sub(chunk);
+            let mut cand = best.clone();
+            let mut removed = 0;
+            let mut k = i;
+            while k > lo {
+                k -= 1;
+                if removable(&cand.ops[k].op) {
+                    cand.ops.remove(k);
+                    removed += 1;
+                }
+            }
+            i = lo;
+            if removed == 0 {
+                continue;
+            }
+            let mut cand = sanitize(&cand);
+            if cand.ops.len() >= best.ops.len() {
+                continue;
+            }
+            // the old decisions no longer line up: try the seeded schedule and two reseeds
+            let mut found = None;
+            for r in 0..3u64 {
+                cand.sched.explicit = None;
+                if r > 0 {
+                    cand.sched.seed = mix(best.sched.seed ^ (r << 20));
+                }
+                if let Some(s) = eval(&cand, &mut runs) {
+                    if hit(&s) {
+                        found = Some(s);
+                        break;
+                    }
+                }
+                if runs >= budget {
+                    break;
+                }
+            }
+            if let Some(s) = found {
+                if !s.decisions.is_empty() {
+                    cand.sched.explicit = Some(s.decisions.clone());
+                }
+                best = cand;
+                best_s = s;
+                progress = true;
+                i = i.min(best.ops.len());
+            }
+        }
+        if runs >= budget || (chunk == 1 && !progress) {
+            break;
+        }
+        if !progress || chunk > 1 {
+            chunk = (chunk / 2).max(1);
+        }
+    }
+    // fault plan
+    for step in 0..3 {
+        if runs >= budget {
+            break;
+        }
+        let mut cand = best.clone();
+        match step {
+            0 if cand.sched.stall.is_some() || cand.sched.report_stall.is_some() => {
+                cand.sched.stall = None;
+                cand.sched.report_stall = None;
+            }
+            1 if cand.sched.ring_cap != 0 => cand.sched.ring_cap = 0,
+            2 if cand.str_seed != 0 => cand.str_seed = 0,
+            _ => continue,
+        }
+        if let Some(s) = eval(&cand, &mut runs) {
+            if hit(&s) {
+                best = cand;
+                best_s = s;
+            }
+        }
+    }
+    // schedule: replace chunks of decisions by "stay"
+    if let Some(mut dec) = best.sched.explicit.clone() {
+        let mut chunk = (dec.len() / 2).max(1);
+        while runs < budget {
+            let mut i = 0;
+            while i < dec.len() && runs < budget {
+                let hi = (i + chunk).min(dec.len());
+                if dec[i..hi].iter().all(|d| *d == NO_DECISION) {
+                    i = hi;
+                    continue;
+                }
+                let mut cd = dec.clone();
+                for d in cd[i..hi].iter_mut() {
+                    *d = NO_DECISION;
+                }
+                let mut cand = best.clone();
+                cand.sched.explicit = Some(cd.clone());
+                if let Some(s) = eval(&cand, &mut runs) {
+                    if hit(&s) {
+                        dec = cd;
+                        best = cand;
+                        best_s = s;
+                    }
+                }
+                i = hi;
+            }
+            if chunk == 1 {
+                break;
+            }
+            chunk /= 2;
+        }
+        while dec.last() == Some(&NO_DECISION) {
+            dec.pop();
+        }
+        let mut cand = best.clone();
+        cand.sched.explicit = Some(dec);
+        if let Some(s) = eval(&cand, &mut runs) {
+            if hit(&s) {
+                best = cand;
+                best_s = s;
+            }
+        }
+    }
+    Some((best, best_s))
+}
